@@ -112,7 +112,7 @@ func c18Run(w *W, idx int) {
 	dom := c18Domain(c.op)
 	switch part {
 	case 0:
-		if c.count <= 3 {
+		if c.count <= 3 || (w.Thorough() && c.count <= 5 && ipow(len(dom), c.count) <= 20000) {
 			total := ipow(len(dom), c.count)
 			for t := 0; t < total; t++ {
 				args := make([]interface{}, c.count)
@@ -124,7 +124,11 @@ func c18Run(w *W, idx int) {
 				c18Eval(w, r, c.op, args)
 			}
 		} else {
-			for t := 0; t < 300; t++ {
+			nt := 300
+			if w.Thorough() {
+				nt = 4000
+			}
+			for t := 0; t < nt; t++ {
 				args := make([]interface{}, c.count)
 				for i := range args {
 					args[i] = dom[r.Intn(len(dom))]
@@ -155,7 +159,11 @@ func c18Run(w *W, idx int) {
 				pos = c.count - 1 - (p - 4)
 			}
 			for _, wv := range c18Wrong(c.op) {
-				for rep := 0; rep < 3; rep++ {
+				reps := 3
+				if w.Thorough() {
+					reps = 30
+				}
+				for rep := 0; rep < reps; rep++ {
 					args := make([]interface{}, c.count)
 					for i := range args {
 						args[i] = dom[r.Intn(len(dom))]
@@ -275,9 +283,13 @@ func c18Compositions(w *W, r *rand.Rand, c c18Case) {
 					return Op(aliasesOf[outer][r.Intn(len(aliasesOf[outer]))], ty, och...)
 				}
 				total := ipow(len(dom), nvars)
+				limit := 128
+				if w.Thorough() {
+					limit = 2048
+				}
 				step := 1
-				if total > 128 {
-					step = total / 128
+				if total > limit {
+					step = total / limit
 				}
 				for t := r.Intn(step); t < total; t += step {
 					vals := make([]interface{}, nvars)
@@ -518,7 +530,11 @@ func c18Relations(w *W, r *rand.Rand, c c18Case) {
 		}
 		return a
 	}
-	for t := 0; t < 400; t++ {
+	nrel := 400
+	if w.Thorough() {
+		nrel = 6000
+	}
+	for t := 0; t < nrel; t++ {
 		switch c.op {
 		case "ne":
 			args := c18Domain("eq")
